@@ -115,7 +115,16 @@ func DeBlobProgramCode(data []byte) (_ Program, _ ExitReason) {
 		return Program{}, ExitPanic
 	}
 
-	instructions := data[:instSize]
+	if uint64(len(data)) < instSize {
+		pvmLogger.Errorf("instructions: not enough data to read %d bytes: got %d", instSize, len(data))
+		return Program{}, ExitPanic
+	}
+	// keep the code in its own buffer followed by zetaPadding zero bytes of spare capacity: operand
+	// reads past the end of the code then see zeros (GP A.2) and never the bitmask that follows the
+	// code in the blob
+	zeta := make([]byte, instSize+zetaPadding)
+	copy(zeta, data[:instSize])
+	instructions := zeta[:instSize]
 	bitmaskData := data[instSize:]
 	bitmask, exitReason := MakeBitMasks(instructions, bitmaskData)
 	if exitReason == ExitPanic {
